@@ -77,3 +77,31 @@ def verify(pub, msg, der_sig, tweak=None):
         return bool(vk.verify(der_sig, msg, hashfunc=hashlib.sha256, sigdecode=sigdecode_der))
     except (ecdsa.BadSignatureError, ecdsa.der.UnexpectedDER, ValueError, AssertionError):
         return False
+
+
+def fast_pub65(d):
+    """uncompressed public key of private value d through libsecp256k1: only for SEARCHES over
+    many candidate keys in the generators (the result is re-derived with ``ecdsa`` by Key)"""
+    import secp256k1 as lib
+    return lib.PrivateKey(d.to_bytes(32, "big"), raw=True).pubkey.serialize(compressed=False)
+
+
+def search_last_key(prefix_hash, rng_bytes, wanted, limit=400000):
+    """Find private values d such that sha256(prefix || pub65(d)) satisfies the predicates in
+    ``wanted`` (name -> predicate(digest)); prefix_hash is a hashlib object over the other
+    keys.  -> name -> (d, digest)"""
+    need = dict(wanted)
+    out = {}
+    n = 0
+    while need:
+        n += 1
+        if n > limit:
+            raise RuntimeError("search_last_key: %r not found" % sorted(need))
+        d = int.from_bytes(rng_bytes(32), "big") % (N - 1) + 1
+        h = prefix_hash.copy()
+        h.update(fast_pub65(d))
+        dg = h.digest()
+        for name in [k for k, pred in need.items() if pred(dg)]:
+            out[name] = (d, dg)
+            del need[name]
+    return out
